@@ -231,6 +231,129 @@ Proof.
   intros d Hd. apply (sched_grows is (start H s calls)). exact Hd.
 Qed.
 
+(* ---------- the tag mapping under concurrency: nothing is invented ---------- *)
+Section Origin.
+Variable s0 : st.
+Variable calls : list ccall.
+
+Definition origin (r n : N) : Prop := In (r, n) (stags s0) \/ In (CTag n r) calls.
+
+Record TInv (c : conf) : Prop := {
+  ti_tags : forall r n, In (r, n) (ctags c) -> origin r n;
+  ti_snap : forall t l, In t (cthreads c) -> tsnap t = Some l -> forall r n, In (n, Some r) l -> origin r n;
+  ti_index : forall l, read_index (cfs c) = Some l -> forall r n, In (n, Some r) l -> origin r n;
+  ti_prog : forall t d r, In t (cthreads c) -> In (TTagMem d (Some r)) (tprog t) -> In (CTag d r) calls
+}.
+
+Lemma tstep_inv c i : TInv c -> TInv (stepN c i).
+Proof.
+  intros [Tg Sn Ix Pg]. unfold sched_step.
+  destruct (nth_error (cthreads c) i) as [t|] eqn:En; [|constructor; assumption].
+  pose proof (nth_error_In _ _ En) as Ht.
+  unfold fire. destruct (tprog t) as [|a rest] eqn:Ep; [constructor; assumption|].
+  assert (Prest : forall d r, In (TTagMem d (Some r)) rest -> In (CTag d r) calls).
+  { intros d r Hin. apply (Pg t d r Ht). rewrite Ep. now right. }
+  assert (Keep : forall (snap' : option (list entry)) tmp' hold' c',
+            cthreads c' = cthreads c ->
+            (forall l, snap' = Some l -> forall r n, In (n, Some r) l -> origin r n) ->
+            forall u, In u (set_nth i (mkThread rest tmp' snap' hold') (cthreads c')) ->
+            (forall l, tsnap u = Some l -> forall r n, In (n, Some r) l -> origin r n) /\
+            (forall d r, In (TTagMem d (Some r)) (tprog u) -> In (CTag d r) calls)).
+  { intros snap' tmp' hold' c' Ec Hs u Hin. rewrite Ec in Hin. apply In_set_nth in Hin as [->|Hin].
+    - split; [exact Hs|exact Prest].
+    - split; [intros l Hl; now apply (Sn u l)|intros d r; now apply (Pg u d r)]. }
+  assert (SnapT : forall l, tsnap t = Some l -> forall r n, In (n, Some r) l -> origin r n)
+    by (intros l Hl; now apply (Sn t l)).
+  destruct a.
+  - constructor; cbn [cfs ctags cdigs cthreads]; try assumption.
+    + intros u l Hin. now apply (Keep (tsnap t) _ _ c eq_refl SnapT u Hin).
+    + intros u d r Hin. now apply (Keep (tsnap t) _ _ c eq_refl SnapT u Hin).
+  - constructor; cbn [cfs ctags cdigs cthreads]; try assumption.
+    + intros u l Hin. now apply (Keep (tsnap t) _ _ c eq_refl SnapT u Hin).
+    + intros u d0 r Hin. now apply (Keep (tsnap t) _ _ c eq_refl SnapT u Hin).
+  - constructor; cbn [cfs ctags cdigs cthreads]; try assumption.
+    + intros u l Hin. now apply (Keep (tsnap t) _ _ c eq_refl SnapT u Hin).
+    + intros u d r Hin. now apply (Keep (tsnap t) _ _ c eq_refl SnapT u Hin).
+  - (* TTagMem *)
+    constructor; cbn [cfs ctags cdigs cthreads]; try assumption.
+    + intros r0 n Hin. destruct r as [r|]; [|now apply Tg].
+      apply tag_set_iff in Hin as [[-> ->]|[_ Hin]]; [|now apply Tg].
+      right. apply (Pg t d r Ht). rewrite Ep. now left.
+    + intros u l Hin. now apply (Keep (tsnap t) _ _ c eq_refl SnapT u Hin).
+    + intros u d0 r0 Hin. now apply (Keep (tsnap t) _ _ c eq_refl SnapT u Hin).
+  - (* TUntagMem *)
+    constructor; cbn [cfs ctags cdigs cthreads]; try assumption.
+    + intros r0 n Hin. unfold tag_del in Hin. apply filter_In in Hin as [Hin _]. now apply Tg.
+    + intros u l Hin. now apply (Keep (tsnap t) _ _ c eq_refl SnapT u Hin).
+    + intros u d r0 Hin. now apply (Keep (tsnap t) _ _ c eq_refl SnapT u Hin).
+  - (* TLockSnap *)
+    destruct (clock c); [constructor; assumption|].
+    assert (NewSnap : forall l, Some (shuffle (ccnt c) (save (ctags c) (cdigs c))) = Some l ->
+                      forall r n, In (n, Some r) l -> origin r n).
+    { intros l El r n Hin. injection El as <-. apply shuffle_In in Hin.
+      apply save_tagged in Hin. now apply Tg. }
+    constructor; cbn [cfs ctags cdigs cthreads]; try assumption.
+    + intros u l Hin. now apply (Keep _ _ _ c eq_refl NewSnap u Hin).
+    + intros u d r Hin. now apply (Keep _ _ _ c eq_refl NewSnap u Hin).
+  - (* TPublishIndex *)
+    destruct (tsnap t) as [l|] eqn:Es.
+    + constructor; cbn [cfs ctags cdigs cthreads]; try assumption.
+      * intros u l0 Hin. now apply (Keep (Some l) _ _ c eq_refl SnapT u Hin).
+      * intros u d r Hin. now apply (Keep (Some l) _ _ c eq_refl SnapT u Hin).
+    + constructor; cbn [cfs ctags cdigs cthreads]; try assumption.
+      * intros u l0 Hin. now apply (Keep None _ _ c eq_refl SnapT u Hin).
+      * intros u d r Hin. now apply (Keep None _ _ c eq_refl SnapT u Hin).
+  - (* TUnlock *)
+    assert (NoSnap : forall l, @None (list entry) = Some l -> forall r n, In (n, Some r) l -> origin r n)
+      by (intros l El; discriminate).
+    constructor; cbn [cfs ctags cdigs cthreads]; try assumption.
+    + intros u l Hin. now apply (Keep None _ _ c eq_refl NoSnap u Hin).
+    + intros u d r Hin. now apply (Keep None _ _ c eq_refl NoSnap u Hin).
+Qed.
+
+Lemma tsched_inv is : forall c, TInv c -> TInv (sched shuffle c is).
+Proof. induction is as [|i is IH]; intros c Hc; [exact Hc|]. cbn [sched fold_left]. apply IH. now apply tstep_inv. Qed.
+
+End Origin.
+
+Lemma call_prog_tags fs tags x d r : In (TTagMem d (Some r)) (call_prog H fs tags x) -> x = CTag d r.
+Proof.
+  destruct x as [d0 c man|d0 r0|r0|]; cbn [call_prog].
+  - destruct (exists_file fs (FBlob d0)); [intros []|]. unfold push_prog. intro Hin.
+    apply in_app_or in Hin as [Hin|Hin].
+    + apply in_map_iff in Hin as (y & E & _). discriminate.
+    + destruct (H c =? d0); [|destruct Hin as [E|[]]; discriminate].
+      destruct Hin as [E|Hin]; [discriminate|]. destruct man; [|destruct Hin].
+      cbn in Hin. destruct Hin as [E|[E|[E|[E|[]]]]]; discriminate.
+  - destruct (exists_file fs (FBlob d0)); [|intros []]. cbn. intros [E|[E|[E|[E|[]]]]]; try discriminate.
+    injection E as -> ->. reflexivity.
+  - destruct (tag_get r0 tags); [|intros []]. cbn. intros [E|[E|[E|[E|[]]]]]; discriminate.
+  - cbn. intros [E|[E|[E|[]]]]; discriminate.
+Qed.
+
+(* at every point of every schedule: a reference name in index.json was there before the calls
+   started, or one of the concurrent calls is the Tag that sets it *)
+Theorem conc_tags_origin (h : list hop) (calls : list ccall) (is : list nat) :
+  let s := runc H shuffle false false true h init in
+  let c := sched shuffle (start H s calls) is in
+  forall l r n, read_index (cfs c) = Some l -> tag_of l r n ->
+    (exists l0, read_index (sfs s) = Some l0 /\ tag_of l0 r n) \/ In (CTag n r) calls.
+Proof.
+  intros s c l r n Hl Ht.
+  assert (I : Inv H s) by (apply inv_runc; [exact shuffle_In|apply inv_init]).
+  assert (T0 : TInv s calls (start H s calls)).
+  { constructor; cbn [start cfs ctags cdigs cthreads].
+    - intros r0 n0 Hin. now left.
+    - intros t l0 Hin. apply in_map_iff in Hin as (x & <- & _). cbn. discriminate.
+    - intros l0 Hl0 r0 n0 Hin. left. destruct (inv_named H s I) as (l1 & Hl1 & Hn).
+      rewrite Hl1 in Hl0. injection Hl0 as <-. now apply Hn.
+    - intros t d r0 Hin Hp. apply in_map_iff in Hin as (x & <- & Hx). cbn [tprog] in Hp.
+      apply call_prog_tags in Hp. now subst x. }
+  destruct (tsched_inv s calls is _ T0) as [_ _ Ix _]. fold c in Ix.
+  destruct (Ix l Hl r n Ht) as [Ho|Ho]; [left|now right].
+  destruct (inv_named H s I) as (l1 & Hl1 & Hn). exists l1. split; [exact Hl1|]. unfold tag_of. now apply Hn.
+Qed.
+
 End ConcProofs.
 
 Theorem conc_crash_safe_src :
@@ -269,3 +392,13 @@ Lemma conc_example :
   exists_file (cfs c) (FBlob 1) = true /\ exists_file (cfs c) (FBlob 2) = false /\
   cdigs c = [1; 3] /\ clock c = false.
 Proof. vm_compute. repeat split; reflexivity. Qed.
+
+Theorem conc_tags_origin_src :
+  forall (H : list N -> N) (shuffle : nat -> list entry -> list entry),
+    (forall c l e, In e (shuffle c l) <-> In e l) ->
+    forall (h : list hop) (calls : list ccall) (is : list nat),
+      let s := runc H shuffle src_inplace src_unlink_first true h init in
+      let c := sched shuffle (start H s calls) is in
+      forall l r n, read_index (cfs c) = Some l -> tag_of l r n ->
+        (exists l0, read_index (sfs s) = Some l0 /\ tag_of l0 r n) \/ In (CTag n r) calls.
+Proof. rewrite src_inplace_false, src_unlink_first_false. exact conc_tags_origin. Qed.
